@@ -1,25 +1,25 @@
 #!/bin/bash
-# usage: tools_seed_verify.sh Cxx [props-to-check...]
+# usage: [TAG=Cxxb OUT=/tmp/seed2_Cxx_out] tools_seed_verify.sh Cxx [props-to-check...]
 # Confirms a seeded change in a scratch worktree: demo fails with it / passes without it, the 41 baseline tests
 # pass with it, and runs the registered checks against it.  Writes /tmp/vfy_Cxx.json; removes the worktree.
 P=$1; shift; CHECKS=${@:-$P}
-OUT=/tmp/seed_${P}_out; W=/tmp/vfy_$P
+TAG=${TAG:-$P}; OUT=${OUT:-/tmp/seed_${P}_out}; W=/tmp/vfy_$TAG
 git -C /repo worktree remove --force $W 2>/dev/null; rm -rf $W
 git -C /repo worktree add -q $W HEAD || exit 9
-if ! git -C $W apply $OUT/patch.diff; then echo '{"applies": false}' > /tmp/vfy_$P.json; git -C /repo worktree remove --force $W; exit 8; fi
+if ! git -C $W apply $OUT/patch.diff; then echo '{"applies": false}' > /tmp/vfy_$TAG.json; git -C /repo worktree remove --force $W; exit 8; fi
 cd $W
-GENJAX_SRC=$W/src timeout 900 /venv/bin/python $OUT/demo.py > /tmp/vfy_${P}_demo_patched.log 2>&1; D1=$?
-GENJAX_SRC=/repo/src timeout 900 /venv/bin/python $OUT/demo.py > /tmp/vfy_${P}_demo_clean.log 2>&1; D0=$?
-PYTHONPATH=$W/src /venv/bin/python -m pytest -q -p no:cacheprovider --timeout=900 --continue-on-collection-errors --junitxml=/tmp/vfy_${P}_junit.xml > /tmp/vfy_${P}_pytest.log 2>&1
-/venv/bin/python /verif/tools_baseline.py /tmp/vfy_${P}_junit.xml > /tmp/vfy_${P}_baseline.log 2>&1; B=$?
+GENJAX_SRC=$W/src timeout 900 /venv/bin/python $OUT/demo.py > /tmp/vfy_${TAG}_demo_patched.log 2>&1; D1=$?
+GENJAX_SRC=/repo/src timeout 900 /venv/bin/python $OUT/demo.py > /tmp/vfy_${TAG}_demo_clean.log 2>&1; D0=$?
+PYTHONPATH=$W/src /venv/bin/python -m pytest -q -p no:cacheprovider --timeout=900 --continue-on-collection-errors --junitxml=/tmp/vfy_${TAG}_junit.xml > /tmp/vfy_${TAG}_pytest.log 2>&1
+/venv/bin/python /verif/tools_baseline.py /tmp/vfy_${TAG}_junit.xml > /tmp/vfy_${TAG}_baseline.log 2>&1; B=$?
 WHERE=$(PYTHONPATH=$W/src /venv/bin/python -c "import genjax; print(genjax.__file__)" 2>/dev/null | tail -1)
 cd /verif
 RES=""
 for c in $CHECKS; do
-  GENJAX_REPO=$W PYTHONDONTWRITEBYTECODE=1 JAX_PLATFORMS=cpu .venv/bin/python -m vt.runner $c --tier quick --only genjax > /tmp/vfy_${P}_check_$c.log 2>&1; RC=$?
-  NV=$(grep -c "^VIOLATION" /tmp/vfy_${P}_check_$c.log)
+  GENJAX_REPO=$W PYTHONDONTWRITEBYTECODE=1 JAX_PLATFORMS=cpu .venv/bin/python -m vt.runner $c --tier quick --only genjax > /tmp/vfy_${TAG}_check_$c.log 2>&1; RC=$?
+  NV=$(grep -c "^VIOLATION" /tmp/vfy_${TAG}_check_$c.log)
   RES="$RES\"$c\": {\"rc\": $RC, \"violations\": $NV},"
 done
-echo "{\"applies\": true, \"demo_with_patch_rc\": $D1, \"demo_clean_rc\": $D0, \"baseline_ok\": $([ $B = 0 ] && echo true || echo false), \"genjax_imported_from\": \"$WHERE\", \"checks\": {${RES%,}}}" > /tmp/vfy_$P.json
+echo "{\"applies\": true, \"demo_with_patch_rc\": $D1, \"demo_clean_rc\": $D0, \"baseline_ok\": $([ $B = 0 ] && echo true || echo false), \"genjax_imported_from\": \"$WHERE\", \"checks\": {${RES%,}}}" > /tmp/vfy_$TAG.json
 git -C /repo worktree remove --force $W
-cat /tmp/vfy_$P.json
+cat /tmp/vfy_$TAG.json
